@@ -15,18 +15,35 @@ open Bolt.FL Bolt.Store
 theorem crash_atomic (s : St) (hr : Reachable s) (w : W) (hw : s.w = some w) (cp : CrashPoint) :
     (recovered s w cp = s.cur ∨ recovered s w cp = newVersion s.cur w) ∧
     Intact (crashDisk s w cp) (recovered s w cp) := by
-  sorry
+  have hi := hr.inv
+  cases cp with
+  | duringData ps =>
+    exact ⟨Or.inl rfl, intact_cur_write hi hw _ (fun p hp => (List.mem_filter.mp hp).1) _⟩
+  | duringMeta b =>
+    cases b with
+    | false => exact ⟨Or.inl rfl, intact_cur_write hi hw _ (fun p hp => hp) _⟩
+    | true => exact ⟨Or.inr rfl, intact_newVersion hi hw⟩
+  | afterCommit => exact ⟨Or.inr rfl, intact_newVersion hi hw⟩
 
 /-- The in-flight version is recovered only when its meta page reached the disk. -/
 theorem inflight_only_with_meta (s : St) (w : W) (cp : CrashPoint)
     (h : recovered s w cp = newVersion s.cur w) (hne : newVersion s.cur w ≠ s.cur) :
     cp = .duringMeta true ∨ cp = .afterCommit := by
-  sorry
+  cases cp with
+  | duringData ps => exact absurd h.symm hne
+  | duringMeta b =>
+    cases b with
+    | false => exact absurd h.symm hne
+    | true => exact Or.inl rfl
+  | afterCommit => exact Or.inr rfl
 
 /-- Durability: after a successful commit the new version is what the file holds. -/
 theorem committed_is_durable (s : St) (hr : Reachable s) (w : W) (hw : s.w = some w)
     (s' : St) (h : stepAll s .commit = some s') :
     s'.cur = newVersion s.cur w ∧ Intact s'.disk s'.cur := by
-  sorry
+  obtain ⟨w', hw', rfl⟩ := step_commit h
+  rw [hw] at hw'
+  cases hw'
+  exact ⟨rfl, intact_newVersion hr.inv hw⟩
 
 end Bolt.C01
